@@ -191,4 +191,29 @@ def checkWritten (data : Bytes) (index : Option Bytes) : Except Issue (List PSeg
   | none => pure ()
   pure segs
 
+/-! ## Objects in force
+
+`pSegment` measures a segment's raw data against the objects the segment itself lists, which is the whole truth only when the
+segment starts a new object list (`kTocNewObjList`, what `TdmsWriter` always sets).  A segment WITHOUT that flag inherits the
+previous segment's objects: those it lists replace or extend them, the others stay in force with their last raw data index.  The
+raw data length must then be that of the objects in force. -/
+
+/-- the previous objects with the listed ones replaced (by path), followed by the listed objects that are new -/
+def mergeObjs (prev cur : List PObj) : List PObj :=
+  (prev.map fun o => (cur.find? (fun c => c.path == o.path)).getD o) ++ cur.filter fun c => !(prev.any fun o => o.path == c.path)
+
+def startsNewList (s : PSeg) : Bool := (s.toc / kTocNewObjList) % 2 == 1
+
+/-- every segment's raw data length is the one its objects IN FORCE imply -/
+def inForceOk : List PObj → List PSeg → Bool
+  | _, [] => true
+  | prev, s :: rest =>
+    let objs := if startsNewList s then s.objs else mergeObjs prev s.objs
+    (s.nextOff - s.rawOff == expectedDataLength objs) && inForceOk objs rest
+
+/-- `checkWritten` plus the objects-in-force condition -/
+def checkWrittenInForce (data : Bytes) (index : Option Bytes) : Except Issue (List PSeg) := do
+  let segs ← checkWritten data index
+  if inForceOk [] segs then pure segs else throw .dataLength
+
 end Tdms.Strict
